@@ -164,6 +164,30 @@ Example C08_hist20_repaired :
   snd (step st (ORead 0)) = OutOk /\ st_ses (fst (step st (ORead 0))) = st_ses st.
 Proof. exact hist20_repaired. Qed.
 
+(* ---- (5b) order of loads: what a leaf knows after an archived record is merged into its own is
+   its own entries plus the archived ones it lacked; records that agree wherever both speak
+   (archives written at different times: the later one only adds correlations) merge to the
+   same knowledge in either order *)
+Theorem C08_merge_lookup :
+  forall b a v, dget uid_eqb (corr_merge a b) v = match dget uid_eqb a v with Some r => Some r | None => dget uid_eqb b v end.
+Proof. exact dget_corr_merge. Qed.
+Print Assumptions C08_merge_lookup.
+
+Theorem C08_merge_order_independent :
+  forall a b, (forall v r r', dget uid_eqb a v = Some r -> dget uid_eqb b v = Some r' -> r = r') ->
+  forall v, dget uid_eqb (corr_merge a b) v = dget uid_eqb (corr_merge b a) v.
+Proof. exact corr_merge_order. Qed.
+Print Assumptions C08_merge_order_independent.
+
+(* A = {x,y} written, THEN r(x,z) declared, THEN B = {x,z} written; a fresh session reads A,B or B,A *)
+Example C08_order_ab_ba :
+  let st := run (init_state 1) hist_ab in
+  let ab := run st [ORead 0; ORead 1] in
+  let ba := run st [ORead 1; ORead 0] in
+  corr_of ab (1, 1) (1, 3) = Some 2 /\ corr_of ab (1, 3) (1, 1) = Some 2 /\ corr_of ab (1, 1) (1, 2) = Some 4 /\
+  corr_of ba (1, 1) (1, 3) = Some 2 /\ corr_of ba (1, 3) (1, 1) = Some 2 /\ corr_of ba (1, 1) (1, 2) = Some 4.
+Proof. exact order_ab_ba. Qed.
+
 (* ---- (6) fresh uids.  Loading (and Archive.copy) never touches the context id or the counters;
    a number declared after a load takes (context id, counter+1), which no uid of the document
    equals when the document comes from a session with another context id (uuid4: assumption) *)
